@@ -2,7 +2,9 @@ package main
 
 import (
 	"context"
+	"encoding/base64"
 	"fmt"
+	"io"
 	"net"
 	"net/http/httptest"
 	"strings"
@@ -108,6 +110,25 @@ func c15Setup() *c15Env {
 	return e
 }
 
+// c15SlowBody: a request body whose bytes arrive d after the first Read
+type c15SlowBody struct {
+	d    time.Duration
+	data []byte
+	off  int
+}
+
+func (b *c15SlowBody) Read(p []byte) (int, error) {
+	if b.off == 0 {
+		time.Sleep(b.d)
+	}
+	if b.off >= len(b.data) {
+		return 0, io.EOF
+	}
+	n := copy(p, b.data[b.off:])
+	b.off += n
+	return n, nil
+}
+
 func grpcFrame(payload []byte) []byte {
 	n := len(payload)
 	return append([]byte{0, byte(n >> 24), byte(n >> 16), byte(n >> 8), byte(n)}, payload...)
@@ -136,6 +157,13 @@ func c15Run(o *out, input string) {
 		// the same header on the gRPC-web entry
 		r.ProtoMajor, r.ProtoMinor = 1, 1
 		r.Header.Set("Content-Type", "application/grpc-web+proto")
+	}
+	if len(f) > 2 && f[2] == "x" {
+		// gRPC-web in its text form, the upload arriving 400 ms after the request: the deadline counts from receipt of the
+		// request, not from the end of its body
+		r = httptest.NewRequest("POST", "/verif.c15.Tsvc/Unary", &c15SlowBody{d: 400 * time.Millisecond, data: []byte(base64.StdEncoding.EncodeToString(grpcFrame(nil)))})
+		r.Header.Set("Content-Type", "application/grpc-web-text+proto")
+		web = true
 	}
 	r.Header["Grpc-Timeout"] = []string{val}
 	r.Header.Set("X-C15-Case", fmt.Sprint(e.caseID))
@@ -206,6 +234,10 @@ func c15Gen(o *out, r *rng, tier string) {
 	}
 	units := "HMSmun"
 	c15cGen(o)
+	for _, v := range []string{"1S", "700m", "2000000u", "5S", "1M", "3H", "1x", "S"} {
+		o.count("grpc-web-text-slow-upload")
+		c15Run(o, "C15T "+hx([]byte(v))+" x")
+	}
 	// digit counts 1..9 x units + bad units, leading zeros, all nines
 	for n := 1; n <= 9; n++ {
 		for _, u := range units + "sh x" {
